@@ -23,7 +23,7 @@ PROPS = {
     "C07": dict(mc_q=["MC_payload_q"], mc_t=["MC_payload"], wit=[("MC_payload_q", "W_TaskPayloadPending")]),
     "C08": dict(mc_q=["MC_plan_q", "MC_planman"], mc_t=["MC_plan", "MC_planman"], wit=[("MC_plan_q", "W_TaskFired"), ("MC_plan_q", "W_Origin0Ahead")]),
     "C09": dict(mc_q=["MC_plan_q", "MC_planman"], mc_t=["MC_plan", "MC_planman"], wit=[("MC_plan_q", "W_PlanFailed"), ("MC_plan_q", "W_PlanSucceeded")]),
-    "C10": dict(mc_q=["MC_plan_q"], mc_t=["MC_plan"], wit=[("MC_plan_q", "W_PlanFull")]),
+    "C10": dict(mc_q=["MC_plan_q", "MC_planedit"], mc_t=["MC_plan", "MC_planedit"], wit=[("MC_plan_q", "W_PlanFull")]),
     "C13": dict(mc_q=[], mc_t=[], wit=[], pool=False),
     "C20": dict(mc_q=[], mc_t=[], wit=[], pool=False),
     "C11": dict(mc_q=["MC_guards_q", "MC_serial"], mc_t=["MC_guards", "MC_serial", "MC_serial3"], wit=[("MC_serial", "W_Replayed")]),
